@@ -119,6 +119,13 @@ func runC15(c *core.Ctx) {
 					suf = path[len(cl.Base):]
 				}
 			}
+			// the close must not sit on the edge where the channel is known to be nil (close(nil) panics, and the real
+			// channel is then never closed: receivers waiting for the close hang)
+			for _, m := range core.EdgeCmps(cl.Instr.Block()) {
+				if m.Op == token.EQL && core.IsNilConst(m.Y) && core.Path(m.X) == core.Path(cl.Chan) {
+					c.Fail("R1", fmt.Sprintf("%s/nil-edge@%s", ch.field, core.FuncName(cl.Fn)), p.InstrPos(cl.Instr), "close("+core.Path(cl.Chan)+") is reached only when the channel is nil: close of nil channel panics and an existing channel is never closed (its receivers are never released)")
+				}
+			}
 			flag := closedFlagSetBefore(p, cl)
 			// independent of the lock: the closed flag must be raised before the channel is closed, otherwise not
 			// even operations started after Close returned can notice (kept separate so that a recorded
